@@ -4,6 +4,7 @@ import (
 	"context"
 	"encoding/json"
 	"fmt"
+	"github.com/cosi-project/runtime/pkg/state"
 	"strings"
 	"testing"
 	"time"
@@ -17,11 +18,13 @@ import (
 // C13Case is a C13 history; its fault scripts are enumerated inside Run.
 type C13Case struct {
 	Common
-	Hist     HistCfg     `json:"hist"`
-	Writers  [][]WriteOp `json:"writers"`
-	Watcher  WatchSpec   `json:"watcher"`
-	NoRetry  bool        `json:"no_retry,omitempty"`
-	StreamBf int         `json:"stream_buf,omitempty"`
+	Hist    HistCfg     `json:"hist"`
+	Writers [][]WriteOp `json:"writers"`
+	Watcher WatchSpec   `json:"watcher"`
+	NoRetry bool        `json:"no_retry,omitempty"`
+	// Sel: the watch carries a label / id selector (kind and aggregated watches): a resumed watch must still carry it
+	Sel      *Selector `json:"sel,omitempty"`
+	StreamBf int       `json:"stream_buf,omitempty"`
 	// Extra are sampled multi-fault scripts run in addition to the enumerated single-reset scripts.
 	Extra []TransportFaults `json:"extra,omitempty"`
 	// Only, if set, restricts the run to this one script (minimised replays).
@@ -82,6 +85,14 @@ func (c13) Gen(seed uint64, tier string) Case {
 		c.Watcher.DelayMs = 300
 	}
 	c.Watcher.StartMs = r.Intn(1500)
+	switch {
+	case r.Bool(0.25):
+		// started with tail events: a resumed watch continues from its bookmark, not from "the last N events" again
+		c.Watcher.Tail = 1 + r.Intn(6)
+		c.Watcher.Bootstrap, c.Watcher.BootstrapBookmark = false, false
+	case c.Watcher.Kind != "single" && r.Bool(0.35):
+		c.Sel = simpleSelector(r, c.Writers)
+	}
 	c.StreamBf = []int{0, 1, 4}[r.Intn(3)]
 	c.NoRetry = r.Bool(0.1)
 	// sampled multi-fault scripts
@@ -128,6 +139,16 @@ func (c13) Shrink(cs Case) []Case {
 			n.Writers[i] = dropAt(n.Writers[i], j)
 			out = append(out, n)
 		}
+	}
+	if c.Sel != nil {
+		n := cloneJSON(c)
+		n.Sel = nil
+		out = append(out, n)
+	}
+	if c.Watcher.Tail > 0 {
+		n := cloneJSON(c)
+		n.Watcher.Tail = 0
+		out = append(out, n)
 	}
 	if c.Only != nil {
 		if len(c.Only.Resets) > 1 {
@@ -212,7 +233,11 @@ func runC13Script(t *testing.T, c *C13Case, script TransportFaults, trace bool) 
 				}
 			})
 		}
-		s.Spawn("watcher", func() { runWatcher(ctx, env, rec, nil, nil) })
+		var selOpts []state.WatchKindOption
+		if c.Sel != nil {
+			selOpts = c.Sel.watchOpts()
+		}
+		s.Spawn("watcher", func() { runWatcher(ctx, env, rec, selOpts, nil) })
 		if r := s.Settle(1500000); r != simrt.Quiescent {
 			out.HarnessErr = fmt.Sprintf("C13 run did not become quiescent: %v live=%v script=%s", r, s.Live(), scriptString(script))
 			return
@@ -245,8 +270,41 @@ func runC13Script(t *testing.T, c *C13Case, script TransportFaults, trace bool) 
 		okP := -1
 		var why []string
 		var matched []expectedEvent
-		for p := rec.InvokeCommit; p <= rec.RetCommit && p <= len(log); p++ {
+		if rec.Spec.Tail > 0 {
+			// tail start: the stream is a contiguous run of the (per-id) log that starts at most Tail events before the
+			// establishment and, for a surviving watch, reaches the end of the log
+			_, all := expectedFrom(log, 0, id)
+			firstAfter := func(pos int) int {
+				for i, x := range all {
+					if x.LogIdx >= pos {
+						return i
+					}
+				}
+				return len(all)
+			}
+			lo, hi := max(0, firstAfter(rec.InvokeCommit)-rec.Spec.Tail), firstAfter(rec.RetCommit)
+			for i := lo; i <= hi && okP < 0; i++ {
+				if len(sp.data) > len(all)-i {
+					continue
+				}
+				if live && !sp.errored && len(sp.data) != len(all)-i {
+					continue
+				}
+				if bad := matchEvents(sp.data, all[i:i+len(sp.data)]); bad != "" {
+					why = append(why, fmt.Sprintf("start=%d: %s", i, bad))
+					continue
+				}
+				okP, matched = rec.InvokeCommit, all[i:]
+			}
+			if okP < 0 {
+				why = append(why, fmt.Sprintf("no start in [%d,%d] of the %d-event log matches (tail %d)", lo, hi, len(all), rec.Spec.Tail))
+			}
+		}
+		for p := rec.InvokeCommit; rec.Spec.Tail == 0 && p <= rec.RetCommit && p <= len(log); p++ {
 			snapshot, exp := expectedFrom(log, p, id)
+			if c.Sel != nil {
+				snapshot, exp, _, _ = expectedFiltered(log, p, *c.Sel)
+			}
 			if sp.snapshotKnown {
 				want := snapshot
 				if id != "" {
